@@ -4,13 +4,22 @@ P = {
     'level_text': 'Coq theorems per Haqq module (evm, feemarket, erc20, liquidvesting, ucdao, coinomics, epochs): export (init (export s)) = '
                   'export s and every modelled query answers the same on s and on init (export s), for every state satisfying the '
                   "module's invariant (established by InitGenesis, preserved by the module's operations); ucdao and erc20: the whole "
-                  'state incl. the rebuilt indexes is restored; refutation witnesses for the pinned coinomics InitGenesis (F3, fixed) '
-                  'and for epochs (K8, known); the models are the executable transcription of the InitGenesis/ExportGenesis functions and '
-                  'are compared with a real export -> fresh app InitChain -> export on history-generated states on every run, where the '
-                  'property itself (identical second document per Haqq module, identical answers of a fixed query set) is evaluated',
+                  'state incl. the rebuilt indexes is restored; evm: auth accounts carry a kind (eth / clawback vesting / base / module), '
+                  'ExportGenesis is parameterised by the selection of kinds it visits, and for every selection that is sound and covers '
+                  'the accounts holding code or storage (the interface EthAccountI does, in every state) init (export s) = s on the EVM '
+                  'projection (parameters, storage and code of every address, whatever account kind sits there), export o init o export '
+                  '= export and all code / storage queries agree, while the selection by the concrete type *EthAccount is refuted on a '
+                  'reachable state (contract on a clawback vesting account); refutation witnesses for the pinned coinomics InitGenesis '
+                  '(F3, fixed) and for epochs (K8, known); the models are the executable transcription of the InitGenesis/ExportGenesis '
+                  'functions and are compared with a real export -> fresh app InitChain -> export on history-generated states on every '
+                  'run, where the property itself (identical second document per Haqq module, identical answers of a query set that '
+                  'covers Account / Code / every storage slot / eth_call of every address holding EVM state on either chain, exported '
+                  'evm.accounts = exactly the holders of code or storage) is evaluated',
     'level_note': 'partial: the theorems are about the model; JSON/protobuf codecs, the KV store, the auth/bank genesis code of the SDK, '
-                  'Keccak and sha256 (injectivity hypotheses) are outside it; vesting accounts are checked on the real code only '
-                  '(they live in the SDK auth genesis)',
+                  'Keccak and sha256 (injectivity hypotheses) are outside it; the vesting schedules of vesting accounts are checked on '
+                  'the real code only (they live in the SDK auth genesis), their EVM side (code hash, code, storage) is modelled; the '
+                  'EVM invariant assumes that SSTORE happens at accounts implementing EthAccountI (a genesis BaseAccount at a CREATE '
+                  'address violates it: C19_evm_base_account_storage_refuted, candidate finding)',
     'technique': 'Coq proof (per-module round trip and query equivalence under the module invariant) + differential correspondence: '
                  'the model predicts the second export of the real application from the first',
     'drivers': [
@@ -19,27 +28,37 @@ P = {
     'coq_header': 'From HV Require Import Genesis.Common Genesis.SimpleModel Genesis.Erc20Model Genesis.DaoModel Genesis.EvmModel '
                   'Genesis.CaseModel.\nFrom Coq Require Import ZArith NArith List.\nImport ListNotations.',
     'lists': {'cases': {'type': 'gcase', 'check': 'mismatches true', 'shard': 12}},
-    'search': {'rounds': 3, 'n': 150},
+    # the search after a correspondence break runs thorough-tier histories (about 0.65 s each): 2 x 20 keeps a failing quick
+    # check below two minutes (3 x 150 took 290 s)
+    'search': {'rounds': 2, 'n': 20},
     'rule': 'a case is a history of 3-7 blocks (thorough: 3-12) on a fresh real application (own MemDB, one bonded validator, six '
             'funded accounts) built from real BeginBlock / DeliverTx (signed eth and cosmos txs) / EndBlock / Commit: contract '
-            'deployment and SSTOREs (incl. clearing), eth and bank transfers, delegation, clawback vesting accounts of three shapes, '
+            'deployment and SSTOREs (incl. clearing); in 3 of 4 histories 1-3 scenarios that put EVM state on an account of a chosen '
+            'type: the future CREATE address of a deployer (nonce offset 0-2) is first turned into a clawback vesting account '
+            '(MsgCreateClawbackVestingAccount with five schedule shapes, MsgConvertIntoVestingAccount with and without an immediate '
+            'delegation) or funded ahead (bank / eth transfer) or left unused, then a hand-assembled small contract (three code '
+            'shapes, 0-3 constructor slots, optional endowment) or the script contract is created there, then SSTORE-changing calls; '
+            'eth and bank transfers, delegation, clawback vesting accounts of three shapes, '
             'liquidation and redemption, DAO fund and ownership transfer (base and liquid denominations), RegisterCoin + ConvertCoin, '
             'conversion toggles, parameter changes of evm / feemarket / coinomics / liquidvesting / ucdao / erc20, day-long time jumps; '
             'then export -> fresh app InitChain at the exported height -> Commit -> export; every history yields two cases: the '
-            'document + query comparison for all Haqq modules (+ vesting accounts in auth, bank) and the single field '
+            'document + query comparison for all Haqq modules (+ vesting accounts in auth, bank; for every address with a non-empty '
+            'code hash or a key under the EVM storage prefix on either chain: Account, Code, each storage slot, eth_call; the exported '
+            'evm.accounts entries carrying code or storage must be exactly those addresses with exactly that code and storage) and the single field '
             'epochs.current_epoch_start_height (class K8); non-trivial = at least 3 operations succeeded over at least 2 blocks; '
             'distinct = distinct histories',
     'trusted_base': [
         'Coq 8.16.1 kernel incl. vm_compute (no native_compute); std++ 1.8.0 gmap/gset/sorting',
         'axioms: none (Print Assumptions: closed under the global context for every theorem of Props/C19.v); hypotheses stated in the '
         'theorems: Keccak and the token-pair id hash are injective, sorting the active precompiles is idempotent',
-        'correspondence harness harness/genesis.go, genesis_coq.go, chain.go + vlib/core.py (history generator, canonical JSON diff, '
-        'query set through the gRPC query router, interning of addresses / denominations / parameter sets)',
+        'correspondence harness harness/genesis.go, genesis_evm.go, genesis_coq.go, chain.go, asm.go + vlib/core.py (history '
+        'generator, EVM assembler, canonical JSON diff, enumeration of the holders of EVM state from the auth accounts\' Go types '
+        'and the raw storage prefix, query set through the gRPC query router, interning of addresses / denominations / parameter sets)',
         'modelled, not verified: SDK auth and bank genesis (EthAccounts and vesting accounts live there), protobuf/JSON codecs, '
         'KV store iteration order (keys ranked by byte order), x/params validation (a predicate)',
     ],
     'assumptions': [
-        'the auth module round-trips its accounts (code hashes of EthAccounts are an input of the EVM model)',
+        'the auth module round-trips its accounts (account kinds and code hashes are an input of the EVM model)',
         'the second application is initialised at the exported height with the block time of the exporting chain',
         'non-Haqq modules (ibc, capability, ...) are not compared; those whose documents differ are recorded as an observation',
     ],
